@@ -114,7 +114,8 @@ where
     V: Into<OrderedFloat<f64>>,
 {
     fn unit() -> OrderedFloat<f64> {
-        OrderedFloat(f64::MIN)
+        // f64::MIN is not the identity of max: max(f64::MIN, -inf) = f64::MIN
+        OrderedFloat(f64::NEG_INFINITY)
     }
     #[inline]
     fn accumulate(accumulator: OrderedFloat<f64>, value: V) -> OrderedFloat<f64> {
@@ -155,7 +156,8 @@ where
     V: Into<OrderedFloat<f64>>,
 {
     fn unit() -> OrderedFloat<f64> {
-        OrderedFloat(f64::MAX)
+        // f64::MAX is not the identity of min: min(f64::MAX, +inf) = f64::MAX
+        OrderedFloat(f64::INFINITY)
     }
     #[inline]
     fn accumulate(accumulator: OrderedFloat<f64>, value: V) -> OrderedFloat<f64> {
